@@ -207,6 +207,56 @@ class CloseContract(Contract):
         ctx.oblige("a-read-only-workspace-writes-nothing", z3.Implies(z3.Not(writable), not saves))
 
 
+class CloseFlushes(Contract):
+    """What close() owes to drillhole groups: when attribute records are pending (the repack flag
+    is up) every concatenator group writes its attribute list before the final save -- whatever
+    the workspace is stored in (a path or an in-memory buffer); an external repack is attempted
+    for files on disk only."""
+    target = "geoh5py/workspace/workspace.py::Workspace.close"
+    variant = "pending-concatenated-attributes"
+    props = ("C11", "C04")
+    lenient = True
+
+    def cases(self):
+        return [(store, pending) for store in ("bytesio", "path") for pending in (True, False)]
+
+    def setup(self, ctx):
+        from io import BytesIO
+
+        from contracts.concat import concatenator_class
+        from geoh5py.groups import ContainerGroup
+
+        store, pending = ctx.case
+        me = ws_obj(ctx, "open", "r+")
+        me.fields["_io_call"] = io_call_summary(ctx)
+        conc = Opaque("drillhole-group", cls=concatenator_class())
+        plain = Opaque("plain-group", cls=ContainerGroup)
+        me.fields["_h5file"] = Opaque("buffer", cls=BytesIO) if store == "bytesio" else "/data/project.geoh5"
+        me.fields["_repack"] = pending
+        me.fields["update_attribute"] = EngineCallable(lambda I, a, kw: I.event("update_attribute", entity=a[0], what=a[1] if len(a) > 1 else None), "update_attribute")
+        ctx.env.update(conc=conc, plain=plain)
+        self._groups = PList([plain, conc])
+        return [me], {}
+
+    @property
+    def attr_overrides(self):
+        return {"groups": lambda I, o: self._groups, "repack": lambda I, o: o.fields["_repack"], "root": lambda I, o: o.fields["_root"]}
+
+    def post(self, ctx, result):
+        e = ctx.env
+        store, pending = ctx.case
+        ev = ctx.path.events
+        flush = [i for i, (k, p) in enumerate(ev) if k == "update_attribute" and p["entity"] is e["conc"] and p["what"] == "concatenated_attributes"]
+        saves = [i for i, (k, p) in enumerate(ev) if k == "io" and p["fun"] == "save_entity"]
+        closes = [i for i, (k, p) in enumerate(ev) if k == "handle.close"]
+        if pending:
+            ctx.oblige("pending-attribute-records-are-written-before-the-final-save", len(flush) == 1 and bool(saves) and flush[0] < saves[0],
+                       note=f"workspace stored in {store}: the drillhole group's attribute list is not flushed at close")
+        ctx.oblige("the-whole-tree-is-saved-then-the-handle-released", len(saves) == 1 and len(closes) == 1 and saves[0] < closes[0])
+        others = [p for k, p in ev if k == "update_attribute" and p["entity"] is not e["conc"]]
+        ctx.oblige("plain-groups-are-not-rewritten-at-close", not others)
+
+
 class ExitContract(Contract):
     target = "geoh5py/workspace/workspace.py::Workspace.__exit__"
     props = ("C11",)
@@ -338,4 +388,4 @@ def _enclosing(node):
     return cur.name if cur is not None else "<module>"
 
 
-CONTRACTS = [IoCall, Geoh5Getter, UpdateAttributeGuard, CloseContract, ExitContract, FetchActiveWorkspace]
+CONTRACTS = [IoCall, Geoh5Getter, UpdateAttributeGuard, CloseContract, CloseFlushes, ExitContract, FetchActiveWorkspace]
